@@ -187,6 +187,9 @@ func (m *Model) CheckObs(u *universe, o Obs) string {
 		if empty {
 			codes = append(codes, "NAME_UNKNOWN")
 		}
+		if m.HEADResolves && strings.HasPrefix(q.K, "Resolve") {
+			codes = append(codes, "NAME_UNKNOWN", "BLOB_UNKNOWN", "MANIFEST_UNKNOWN")
+		}
 		for _, c := range codes {
 			if c == o.Code {
 				return ""
